@@ -222,9 +222,148 @@ def replay_witnesses(ctx):
     return extra
 
 
+# ------------------------------------------------------------------ extension: identity, globals, numpy
+KEY_F17 = "F17:shared-tuple-memo"
+KEY_F18 = "F18:unframed-array-bytes"
+
+REQX = """From Coq Require Import ZArith List Bool.
+Require Import JV.Base.C08_MD5 JV.Model.HashEnc JV.Model.HashEncX JV.Proofs.HashEncXFacts.
+Import ListNotations. Open Scope Z_scope."""
+DEFSX = """Definition showc (b : list Z) : Z * list Z := if (length b <=? 200)%nat then (zlen b, b) else (- zlen b, md5_hex b).
+Definition showx (r : option (list (list Z))) : list (Z * list Z) :=
+  match r with None => [(-1, [])] | Some cs => map showc cs end."""
+
+
+def run_ximpl(cases):
+    text = "\n".join(json.dumps(c) for c in cases) + "\n"
+    rc, out, err = common.run_impl("c08x_impl.py", input_text=text, py=common.PYNP, timeout=1500)
+    lines = [json.loads(l) for l in out.splitlines() if l.strip()]
+    if rc != 0 or len(lines) != len(cases) + 1 or "const" not in lines[0]:
+        raise RuntimeError("c08x_impl rc=%s produced %d lines for %d cases: %s" % (rc, len(lines), len(cases), err[-1500:]))
+    return lines[0]["const"], lines[1:]
+
+
+def parse_showx(s):
+    s = s.replace("%Z", "")
+    out = []
+    for m in re.finditer(r"\(\s*(-?\d+),\s*\[([^\]]*)\]\)", s):
+        body = m.group(2).strip()
+        out.append((int(m.group(1)), [int(x) for x in body.split(";")] if body else []))
+    return out
+
+
+def chunks_agree(mod, chunks_hex):
+    imp = [bytes.fromhex(h) for h in chunks_hex]
+    if len(mod) != len(imp):
+        return False
+    for (n, bs), b in zip(mod, imp):
+        if n >= 0:
+            if n != len(b) or bytes(bs) != b:
+                return False
+        elif -n != len(b) or bytes(bs).decode("ascii") != hashlib.md5(b).hexdigest():
+            return False
+    return True
+
+
+def arr_canon(desc, coerce):
+    a = desc[1]
+    klass = a["klass"]
+    if coerce and a["is_memmap"]:
+        klass = "numpy\nndarray\n".encode().hex()
+    return (klass, a["dtype_pickle"], tuple(a["shape"]), tuple(a["strides"]), a["elems"])
+
+
+def x_stage_impl(ctx, quick):
+    """implementation runs + implementation-only oracle of the extension; returns what the model tie needs"""
+    cases = g.xcases(ctx.rng, 70 if quick else 700)
+    const, res = run_ximpl(cases)
+    viol, stats = [], {"cases": len(cases), "shared_tuple": 0, "shared_mutable_only": 0, "arrays": 0}
+    for c, r in zip(cases, res):
+        if "harness_error" in r or "raise" in r:
+            viol.append(("extension case failed: %s" % (r.get("harness_error") or r.get("raise")), {"kind": "x", "case": c}))
+            continue
+        b = b"".join(bytes.fromhex(h) for h in r["chunks"])
+        if hashlib.md5(b).hexdigest() != r["md5"] or hashlib.sha1(b).hexdigest() != r["sha1"]:
+            viol.append(("joblib.hash is not the digest of the concatenated _hash.update chunks", {"kind": "x", "case": c}))
+    # aliasing: the same structure from fresh objects only
+    pairs = []
+    for i, c in enumerate(cases):
+        kinds = g.ref_kinds(c["x"])
+        if kinds:
+            u = g.unshare(c["x"])
+            if u is not None:
+                pairs.append((i, kinds, {"x": u, "coerce": c["coerce"]}))
+    # F18 witness needs the live stream of a uint8 array of shape (4,)
+    z4 = {"x": g.arr_spec(ctx.rng, ("u1", 1), [4], "C", "ndarray", bytes(4)), "coerce": False}
+    _, res2 = run_ximpl([p[2] for p in pairs] + [z4])
+    known = []
+    for (i, kinds, u), ru in zip(pairs, res2):
+        if "md5" not in ru or "md5" not in res[i]:
+            continue
+        if "T" in kinds:
+            stats["shared_tuple"] += 1
+        else:
+            stats["shared_mutable_only"] += 1
+        if ru["md5"] != res[i]["md5"] and "T" in kinds:
+            known.append(("joblib.hash depends on object identity: %s (a tuple object occurs twice) vs %s (equal value built "
+                          "from distinct objects)" % (res[i]["md5"], ru["md5"]), {"kind": "alias", "case": cases[i]}, KEY_F17))
+        # sharing of lists / dicts only: aliased mutable objects are outside the property's universe
+    rz = res2[-1]
+    f18 = None
+    if "chunks" in rz:
+        payload = bytes.fromhex(rz["chunks"][1]) + bytes.fromhex(rz["chunks"][2]) + bytes.fromhex(rz["chunks"][3])[:-1]
+        if len(payload) <= 255:
+            wa = {"x": g.arr_spec(ctx.rng, ("u1", 1), [4], "C", "ndarray", bytes([0x80, 3, 67, len(payload)])), "coerce": False}
+            wb = {"x": ["leaf", g.Y(payload)], "coerce": False}
+            _, r3 = run_ximpl([wa, wb])
+            f18 = (wa, wb, r3)
+    # arrays: equal (class, dtype, shape, strides, contents) <=> equal digest
+    by_canon, by_md5 = {}, {}
+    for c, r in zip(cases, res):
+        if c["x"][0] == "arr" and "md5" in r:
+            stats["arrays"] += 1
+            k = arr_canon(r["desc"], c["coerce"])
+            by_canon.setdefault(k, set()).add(r["md5"])
+            by_md5.setdefault(r["md5"], set()).add(k)
+    for k, ds in by_canon.items():
+        if len(ds) > 1:
+            viol.append(("equal arrays, different digests %s" % sorted(ds), {"kind": "x-arr", "canon": list(map(str, k))[:4]}))
+    for d, ks in by_md5.items():
+        if len(ks) > 1:
+            viol.append(("different arrays, same digest %s" % d, {"kind": "x-arr", "canon": [list(map(str, k))[:4] for k in ks][:2]}))
+    return {"cases": cases, "res": res, "extra": ([f18[0], f18[1]], f18[2]) if f18 else ([], []), "viol": viol, "known": known,
+            "f18": f18, "const": const, "stats": stats, "z4": rz}
+
+
+def x_model(ctx, cases, res):
+    rows = [(c, r) for c, r in zip(cases, res) if "chunks" in r]
+    exprs = ["showx (enc_x_top md5_hex %s %s)" % ("true" if c.get("coerce") else "false", g.coq_xvalue(r["desc"]))
+             for c, r in rows]
+    exprs.append("showx (Some [np_u1_dtype_pickle; f18_stream; f18_payload])")
+    vals = ctx.coq_eval_lines(REQX, DEFSX, exprs, name="c08x", shard=max(8, len(exprs) // (2 * common.NCPU) + 1), timeout=1500)
+    bad = []
+    for (c, r), v in zip(rows, vals):
+        if not chunks_agree(parse_showx(v), r["chunks"]):
+            bad.append({"case": c, "impl_chunks": [h[:200] for h in r["chunks"]][-2:], "model": v[:400]})
+    return bad, parse_showx(vals[-1]), len(rows)
+
+
 # ------------------------------------------------------------------ main
+def load_own_findings(ctx):
+    """the per-property source file known_findings.d/C08.json (BUILDER_GUIDE: keys listed there are known findings);
+    known_findings.json is generated from it by harness/findings_merge.py and may lag behind"""
+    path = os.path.join(common.ROOT, "known_findings.d", "C08.json")
+    have = {(k.get("property"), k.get("key")) for k in ctx.known}
+    for k in json.load(open(path))["findings"]:
+        if (k.get("property"), k.get("key")) not in have:
+            ctx.known.append(k)
+            ctx.note("finding %s [%s] is listed in known_findings.d/C08.json but not yet merged into known_findings.json"
+                     % (k.get("id"), k.get("key")))
+
+
 def run(ctx):
     quick = ctx.tier == "quick"
+    load_own_findings(ctx)
     trusted = [
         "Coq 8.16.1 kernel (coqc); vm_compute in the refutation witnesses, the Examples and the cases evaluation",
         "Model/HashEnc.v is a hand-written model of joblib/hashing.py (Hasher) and of the parts of CPython's "
@@ -248,7 +387,10 @@ def run(ctx):
         "its protocol-3 field ([fits])",
         "no hypothesis on md5 in any theorem (it is a universally quantified parameter)",
     ]
+    import time as _t
+    T = {"t0": _t.time()}
     proofs_ok = ctx.standard_proof_stage("C08", search=lambda: search_failing(ctx))
+    T["proofs"] = _t.time()
 
     n_random = 1200 if quick else 20000
     uni, fam_stats = g.universe(ctx.rng, n_random)
@@ -257,6 +399,7 @@ def run(ctx):
         uni = [(json.loads(l), "corpus") for l in open(corpus_path) if l.strip()] + uni
     specs = [s for s, _ in uni]
     const, runs = run_all(specs)
+    T["impl"] = _t.time()
 
     # live constants the model hard-codes
     want_const = {"batchsize": 1000, "proto": 3, "set_name": "joblib.hashing\n_ConsistentSet\n",
@@ -271,12 +414,58 @@ def run(ctx):
     extra = replay_witnesses(ctx)
 
     # 3. correspondence
-    n_model = len(specs) if quick else min(len(specs), 7000)
-    idx = list(range(len(specs))) if n_model == len(specs) else sorted(ctx.rng.sample(range(len(specs)), n_model))
+    # byte-exact tie: every boundary case + a sample of the rest (the oracle above ran on everything)
+    n_model = min(len(specs), 1500 if quick else 7000)
+    must = [i for i, (_, o) in enumerate(uni) if o in ("special", "corpus")]
+    rest = [i for i, (_, o) in enumerate(uni) if o not in ("special", "corpus")]
+    idx = sorted(must + ctx.rng.sample(rest, max(0, min(len(rest), n_model - len(must)))))
     ok_rows = [i for i in idx if "iter" in runs[0][i] and "stream" in runs[0][i]]
     iters = [runs[0][i]["iter"] for i in ok_rows] + [r["iter"] for r in extra if "iter" in r]
     streams = [runs[0][i]["stream"] for i in ok_rows] + [r["stream"] for r in extra if "iter" in r]
-    model = model_streams(ctx, iters)
+    T["oracle"] = _t.time()
+    xs = x_stage_impl(ctx, quick)
+    T["ximpl"] = _t.time()
+    for what, rep in xs["viol"][:3]:
+        ctx.violation(what, rep, True)
+    shown = 0
+    for what, rep, key in xs["known"]:
+        shown += 1
+        if shown <= 2:
+            ctx.violation(what + " -- " + json.dumps(rep["case"])[:300], rep, True, finding_key=key)
+    # witnesses of the extension findings
+    w17 = [c for c in xs["cases"][:2]]
+    r17 = xs["res"][:2]
+    if r17[0].get("md5") and r17[0].get("md5") != r17[1].get("md5"):
+        ctx.violation("joblib.hash([t, t]) = %s but joblib.hash([t, (1, 2)]) = %s for t = (1, 2): the digest depends on whether two equal "
+                      "tuples are one object (Pickler.memo)" % (r17[0]["md5"], r17[1]["md5"]),
+                      {"kind": "alias", "case": w17[0]}, True, finding_key=KEY_F17)
+    else:
+        ctx.violation("the refutation witness of F17 no longer fails on the implementation: Model/HashEncX.v is stale",
+                      {"kind": "stale-witness", "finding": "F17"}, found_input=False)
+    if xs["f18"] and xs["f18"][2][0].get("md5") and xs["f18"][2][0].get("md5") == xs["f18"][2][1].get("md5"):
+        ctx.violation("a uint8 array and a bytes object have the same digest %s: raw array bytes are fed to the hash unframed, in "
+                      "front of the pickle stream" % xs["f18"][2][0]["md5"],
+                      {"kind": "collision-x", "a": xs["f18"][0], "b": xs["f18"][1]}, True, finding_key=KEY_F18)
+    else:
+        ctx.violation("the refutation witness of F18 no longer fails on the implementation: Model/HashEncX.v is stale",
+                      {"kind": "stale-witness", "finding": "F18"}, found_input=False)
+    with cf.ThreadPoolExecutor(2) as ex:
+        fut_x = ex.submit(x_model, ctx, xs["cases"] + xs["extra"][0], xs["res"] + xs["extra"][1])
+        model = model_streams(ctx, iters)
+        xbad, xconst, n_xmodel = fut_x.result()
+    T["model"] = _t.time()
+    if xs["const"].get("ndarray_name") != "numpy\nndarray\n":
+        xbad.append({"constant": "ndarray_name", "live": xs["const"].get("ndarray_name")})
+    live_u1 = (xs["z4"].get("chunks") or [None, None, None])[2]
+    if xconst and live_u1 is not None and bytes(xconst[0][1]).hex() != live_u1:
+        ctx.note("pickle.dumps(np.dtype('u1')) of the live numpy differs from the constant of the Coq witness f18 (witness replayed "
+                 "from live values instead)")
+    if xbad and not xs["viol"]:
+        ctx.violation("extended model (identity / globals / NumpyHasher) and implementation disagree on the chunks handed to "
+                      "_hash.update (%d of %d cases)" % (len(xbad), n_xmodel),
+                      {"kind": "correspondence", "first_disagreement": xbad[0],
+                       "correspondence": "enc_x_top md5_hex (Model/HashEncX.v) vs the recorded NumpyHasher._hash.update calls"},
+                      found_input=False)
     disagreements = []
     for it, st, mo in zip(iters, streams, model):
         if not agree(mo, st):
@@ -302,7 +491,7 @@ def run(ctx):
     for _, o in uni:
         origins[o] = origins.get(o, 0) + 1
     ctx.finish({
-        "evaluations": len(specs) * len(RUNS) + len(iters),
+        "evaluations": len(specs) * len(RUNS) + len(iters) + len(xs["cases"]) + n_xmodel,
         "distinct_nontrivial": len(nontrivial),
         "rule": "universe = near-colliding leaves x 14 wrappers + boundary cases (batch 999/1000/1001/2000, memo index "
                 "254..300, 255/256/65535/65536-byte strings, LONG1/LONG4) + random values of depth <= 4 with key families "
@@ -310,7 +499,7 @@ def run(ctx):
                 "interpreters (seed, insertion order) x md5/sha1; all-pairs discrimination by sorting digests; "
                 "non-trivial = distinct (canon) values containing a dict/set/frozenset",
         "samples": [specs[0], specs[len(specs) // 2], specs[-1]],
-        "traces_validated_against_impl": len(iters),
+        "traces_validated_against_impl": len(iters) + n_xmodel,
         "model_evaluations": len(iters),
         "disagreements": len(disagreements),
         "universe_size": len(specs),
@@ -322,7 +511,9 @@ def run(ctx):
         "f12_class_values": sum(1 for s in specs if g.unordered_frozenset_keys(s)),
         "runs": [{"PYTHONHASHSEED": a, "insertion_order": b} for a, b in RUNS],
         "live_constants": const,
-        "oracle_violations": len(viol),
+        "extension": dict(xs["stats"], model_evaluations=n_xmodel, disagreements=len(xbad), live=xs["const"]),
+        "stage_seconds": {k: round(T[k] - T[p], 1) for p, k in zip(["t0", "proofs", "impl", "oracle", "ximpl"], ["proofs", "impl", "oracle", "ximpl", "model"])},
+        "oracle_violations": len(viol) + len(xs["viol"]),
         "known_finding_hits": len(known),
         "trusted_base": trusted,
         "exhaustive": False,
